@@ -11,6 +11,7 @@ import Cachelito.ConcDriver
 import Cachelito.CDataDriver
 import Cachelito.KeysDriver
 import Cachelito.AttrsDriver
+import Cachelito.RegDriver
 
 open Cachelito Cachelito.Driver Cachelito.Monitors
 
@@ -113,6 +114,7 @@ partial def main (args : List String) : IO UInt32 := do
   | ["cdata"] => simpleMode stdin Cachelito.CDataDriver.handleCDataLine
   | ["keys"] => simpleMode stdin Cachelito.KeysDriver.handleKeysLine
   | ["attrs"] => simpleMode stdin Cachelito.AttrsDriver.handleAttrsLine
+  | ["reg"] => simpleMode stdin Cachelito.RegDriver.handleRegLine
   | _ =>
-    IO.eprintln "usage: driver core|macro|mem|conc|cdata|keys|attrs < lines"
+    IO.eprintln "usage: driver core|macro|mem|conc|cdata|keys|attrs|reg < lines"
     pure 2
